@@ -27,7 +27,7 @@ SCALARS = ["int", "bool", "str"]
 
 
 def examples(tier):
-    return 2500 if tier == "quick" else 40000
+    return 4000 if tier == "quick" else 150000
 
 
 def budget_s(tier):
